@@ -131,6 +131,7 @@ type Frame struct {
 	nameVals   map[string][]ssa.Value
 	headerState map[int]*State
 	allocSizes []allocSite
+	factGuard string // when set, type-invariant facts about loaded values are assumed under this path condition
 }
 
 type closureInfo struct {
@@ -368,6 +369,10 @@ func (fr *Frame) introduce(name string, t types.Type, st *State) {
 
 func (fr *Frame) refFacts(term string, t types.Type, st *State) {
 	vc := fr.vc
+	assume := func(f string) { vc.assume(implies(fr.factGuard, f)) }
+	if fr.factGuard == "" {
+		assume = vc.assume
+	}
 	if vc.isMathInt(t) {
 		return
 	}
@@ -379,7 +384,7 @@ func (fr *Frame) refFacts(term string, t types.Type, st *State) {
 	}
 	switch u := t.Underlying().(type) {
 	case *types.Pointer, *types.Map, *types.Chan:
-		vc.assume(fmt.Sprintf("(and (<= 0 %s) (< %s %s))", term, term, next))
+		assume(fmt.Sprintf("(and (<= 0 %s) (< %s %s))", term, term, next))
 	case *types.Slice:
 		_ = u
 		z := vc.intLitN(0, types.Typ[types.Int])
@@ -395,20 +400,20 @@ func (fr *Frame) refFacts(term string, t types.Type, st *State) {
 			}
 			return fmt.Sprintf("(+ %s %s)", a, b)
 		}
-		vc.assume(and(fmt.Sprintf("(<= 0 (sref %s))", term), fmt.Sprintf("(< (sref %s) %s)", term, next),
+		assume(and(fmt.Sprintf("(<= 0 (sref %s))", term), fmt.Sprintf("(< (sref %s) %s)", term, next),
 			le(z, fmt.Sprintf("(soff %s)", term)), le(z, fmt.Sprintf("(slen_ %s)", term)),
 			le(fmt.Sprintf("(slen_ %s)", term), fmt.Sprintf("(scap %s)", term)),
 			implies(fmt.Sprintf("(= (sref %s) 0)", term), eq(fmt.Sprintf("(scap %s)", term), z))))
 		if !vc.isBV() {
-			vc.assume(fmt.Sprintf("(<= (+ (soff %s) (scap %s)) %d)", term, term, int64(1)<<48))
+			assume(fmt.Sprintf("(<= (+ (soff %s) (scap %s)) %d)", term, term, int64(1)<<48))
 		}
 		if vc.isBV() {
-			vc.assume(fmt.Sprintf("(bvslt %s (_ bv%d 64))", add(fmt.Sprintf("(soff %s)", term), fmt.Sprintf("(scap %s)", term)), int64(1)<<40))
-			vc.assume(fmt.Sprintf("(bvslt %s (_ bv%d 64))", fmt.Sprintf("(soff %s)", term), int64(1)<<40))
-			vc.assume(fmt.Sprintf("(bvslt %s (_ bv%d 64))", fmt.Sprintf("(scap %s)", term), int64(1)<<40))
+			assume(fmt.Sprintf("(bvslt %s (_ bv%d 64))", add(fmt.Sprintf("(soff %s)", term), fmt.Sprintf("(scap %s)", term)), int64(1)<<40))
+			assume(fmt.Sprintf("(bvslt %s (_ bv%d 64))", fmt.Sprintf("(soff %s)", term), int64(1)<<40))
+			assume(fmt.Sprintf("(bvslt %s (_ bv%d 64))", fmt.Sprintf("(scap %s)", term), int64(1)<<40))
 		}
 	case *types.Interface:
-		vc.assume(fmt.Sprintf("(and (<= 0 (ityp %s)) (<= 0 (ival %s)) (< (ival %s) %s) (=> (= (ityp %s) 0) (= (ival %s) 0)))", term, term, term, next, term, term))
+		assume(fmt.Sprintf("(and (<= 0 (ityp %s)) (<= 0 (ival %s)) (< (ival %s) %s) (=> (= (ityp %s) 0) (= (ival %s) 0)))", term, term, term, next, term, term))
 	}
 }
 
@@ -1266,8 +1271,11 @@ func (fr *Frame) unop(st *State, g string, x *ssa.UnOp) *State {
 		l := fr.locOf(st, g, x.X, false, x.Pos())
 		v := fr.load(st, l)
 		n := fr.def(x, v)
-		vc.assume(vc.rangeFact(n, x.Type()))
+		// type invariants of the loaded value hold on the paths where the load really happens
+		vc.assume(implies(g, vc.rangeFact(n, x.Type())))
+		fr.factGuard = g
 		fr.refFacts(n, x.Type(), st)
+		fr.factGuard = ""
 		return st
 	case token.ARROW:
 		// channel receive: unconstrained value
@@ -1449,7 +1457,7 @@ func (fr *Frame) indexVal(st *State, g string, x *ssa.Index) *State {
 		s := fr.val(x.X)
 		fr.boundsCheck(g, idx, vc.strLen(s), x.Pos(), "string index out of range")
 		n := fr.def(x, fmt.Sprintf("(sat %s %s)", s, idx))
-		vc.assume(vc.rangeFact(n, x.Type()))
+		vc.assume(implies(g, vc.rangeFact(n, x.Type())))
 	case *types.Array:
 		fr.boundsCheck(g, idx, vc.intLitN(t.Len(), types.Typ[types.Int]), x.Pos(), "array index out of range")
 		fr.def(x, fmt.Sprintf("(select %s %s)", fr.val(x.X), idx))
@@ -1479,20 +1487,24 @@ func (fr *Frame) lookup(st *State, g string, x *ssa.Lookup) *State {
 			vc.assume(eq(okn, ok))
 			vn := vc.freshConst(fr.name(x)+"_v", vc.sortOf(t.Elem()))
 			vc.assume(eq(vn, val))
-			vc.assume(vc.rangeFact(vn, t.Elem()))
+			vc.assume(implies(g, vc.rangeFact(vn, t.Elem())))
+			fr.factGuard = g
 			fr.refFacts(vn, t.Elem(), st)
+			fr.factGuard = ""
 			fr.tuples[x] = []string{vn, okn}
 			return st
 		}
 		n := fr.def(x, val)
-		vc.assume(vc.rangeFact(n, t.Elem()))
+		vc.assume(implies(g, vc.rangeFact(n, t.Elem())))
+		fr.factGuard = g
 		fr.refFacts(n, t.Elem(), st)
+		fr.factGuard = ""
 	case *types.Basic:
 		idx := fr.idxTerm(x.Index)
 		s := fr.val(x.X)
 		fr.boundsCheck(g, idx, vc.strLen(s), x.Pos(), "string index out of range")
 		n := fr.def(x, fmt.Sprintf("(sat %s %s)", s, idx))
-		vc.assume(vc.rangeFact(n, x.Type()))
+		vc.assume(implies(g, vc.rangeFact(n, x.Type())))
 	default:
 		panic(unsupported("Lookup on " + x.X.Type().String()))
 	}
